@@ -136,13 +136,19 @@ pub fn check(c: &Case, cs: &mut CaseStats) -> Result<(), String> {
     for i in 0..n {
         let info = infos[i].as_ref().unwrap();
         let rv = &rviews[central * n + i];
-        let tolv = info.pos * ball_surface(d, info.r) * 4. + 1e-11 * vols[i].abs();
+        // a sliver that pivots about a close pair may be tiny in one build and extend across the
+        // box in the other (the two builds snap onto different integer grids): the extent is the
+        // larger of the two cells (same reasoning as for C01's reference comparison)
+        let diag = (0..d).map(|k| w[k] * w[k]).sum::<f64>().sqrt() * 2.;
+        let r_eff = info.r.max((0.5 * rv.safety_radius).min(diag));
+        let pos_eff = info.pos + if info.s_min.is_finite() { tol::snap_theta(c, info.s_min) * (r_eff - info.r) } else { 0. };
+        let tolv = pos_eff * ball_surface(d, r_eff) * 4. + 1e-11 * vols[i].abs();
         if (rv.volume - vols[i]).abs() > tolv {
             return Err(format!("cell {i}: periodic volume {:e} but {:e} in the non-periodic tessellation of the replicated generators (tol {:e})", vols[i], rv.volume, tolv));
         }
         cs.max("replicated_volume_diff_over_tol", (rv.volume - vols[i]).abs() / tolv);
         if tolv < 0.125 * vols[i] {
-            let tolc = 2. * info.r * tolv / vols[i] + info.pos;
+            let tolc = 2. * r_eff * tolv / vols[i] + pos_eff;
             let dc = tol::active_distance(c, DVec3::from_array(rv.centroid), cents[i]);
             if dc > tolc {
                 return Err(format!("cell {i}: periodic centroid {:?} vs {:?} in the replicated tessellation (tol {:e})", cents[i], rv.centroid, tolc));
@@ -166,7 +172,7 @@ pub fn check(c: &Case, cs: &mut CaseStats) -> Result<(), String> {
                 }
             }
         }
-        let tola = info.pos * face_perimeter_bound(d, info.r) * 4.;
+        let tola = pos_eff * face_perimeter_bound(d, r_eff) * 4.;
         let mine: Vec<(&(usize, usize, [i32; 3]), &f64)> = fm.range((i, 0, [i32::MIN; 3])..(i + 1, 0, [i32::MIN; 3])).collect();
         for (key, area) in &mine {
             // a face shared with an ill-conditioned cell is the known finding 'ill-conditioned'
